@@ -18,7 +18,7 @@ from fractions import Fraction as F
 import itertools
 
 from ..loader import AnalysisError
-from ..pe import ConfigRejected, Tensor
+from ..pe import ConfigRejected, Tensor, PyRaise
 from .. import quant, oracle
 from ..qir import Fwd, Eval, Env, value_set, piecewise_derivative
 from ..ieee import ConstEval, Inconclusive, finite
@@ -60,6 +60,104 @@ def show_kw(kw):
   return ",".join("%s=%s" % (k, "PTS" if isinstance(v, Tensor) else
                              oracle.show_kwargs({k: v}).split("=", 1)[1])
                   for k, v in kw.items())
+
+
+def rule_installed(rep, repo, classes, rule, tier, base_configs):
+  """A quantizer that a layer installs as weight quantizer is first passed
+  through its own _set_trainable_parameter() (alpha None -> 'auto_po2',
+  symmetric range, ...).  Whatever that method changes, the adjusted object
+  must compute the same function - and report the same min()/max() - as a
+  quantizer constructed directly with the adjusted options: nothing derived
+  from the old options at construction time may survive (shared with C04)."""
+  from ..qir import equal_mod_finite
+  mod = repo.module(quant.QMOD)
+  n = 0
+  for cls in classes:
+    ci = mod.classes.get(cls)
+    if ci is None:
+      raise AnalysisError("anchor-missing class %s" % cls)
+    owner, fn = ci.find_method("_set_trainable_parameter")
+    if fn is None:
+      continue
+    params = [p_ for p_, _ in ci.init_params()[0]]
+    unit = "%s::%s._set_trainable_parameter" % (mod.relpath, cls)
+    rep.unit(unit)
+    loc = owner.module.loc(fn)
+    for kw in base_configs(cls, tier):
+      cfg = "%s(%s) installed as weight quantizer" % (cls, show_kw(kw))
+      try:
+        pe, q = quant.construct(repo, cls, kw)
+      except ConfigRejected:
+        continue
+      before = {p_: q.attrs.get(p_) for p_ in params}
+      try:
+        pe.call(pe.getattr(q, "_set_trainable_parameter"), [], {})
+      except PyRaise as e:
+        rep.fail(rule, unit, "adjustment-raises", "%s raises %s" % (cfg, e),
+                 loc=loc, instance=cfg)
+        continue
+      kw2 = dict(kw)
+      changed = []
+      for p_ in params:
+        a, b_ = before[p_], q.attrs.get(p_)
+        if isinstance(a, Tensor) or isinstance(b_, Tensor):
+          continue
+        if type(a) != type(b_) or a != b_:
+          kw2[p_] = b_
+          changed.append(p_)
+      err1 = err2 = out1 = d = None
+      try:
+        out1 = pe.call(q, [pe.x_input()], {})
+      except PyRaise as e:
+        err1 = e
+      try:
+        d = quant.build(repo, cls, kw2)
+      except ConfigRejected as e:
+        err2 = e
+      if err1 is not None or err2 is not None:
+        # both refusing the option combination is consistent (what the
+        # combination should do is not this property)
+        rep.check(err1 is not None and err2 is not None, rule, unit,
+                  "adjusted-quantizer-rejected",
+                  "%s: the adjusted object %s, the directly constructed "
+                  "quantizer %s" % (cfg, "raises %s" % err1 if err1 else
+                                    "works", "raises %s" % err2 if err2
+                                    else "works"), loc=loc, instance=cfg)
+        continue
+      n += 1
+      for ph in ("infer", "train"):
+        f1, f2 = Fwd(ph)(out1.term), d.fwd(ph)
+        rep.check(equal_mod_finite(f1, f2), rule, unit,
+                  "stale-state-after-adjustment",
+                  "%s: after _set_trainable_parameter() changed %s the "
+                  "object computes %s, a quantizer constructed with those "
+                  "options computes %s (%s)" % (
+                      cfg, changed, show(f1, 200), show(f2, 200), ph),
+                  loc=loc, instance=cfg)
+      for meth in ("min", "max"):
+        if ci.find_method(meth)[1] is None:
+          continue
+        try:
+          v1 = pe.call(pe.getattr(q, meth), [], {})
+          v2 = d.pe.call(d.pe.getattr(d.obj, meth), [], {})
+        except PyRaise:
+          continue
+        t1 = Fwd()(pe.as_term(v1)) if v1 is not None else None
+        t2 = Fwd()(d.pe.as_term(v2)) if v2 is not None else None
+        rep.check(t1 == t2, rule, unit, "stale-%s-after-adjustment" % meth,
+                  "%s: %s() is %s, the directly constructed quantizer "
+                  "reports %s" % (cfg, meth, t1 and show(t1), t2 and
+                                  show(t2)), loc=loc, instance=cfg)
+  return n
+
+
+def installed_configs(cls, tier):
+  bits = (1, 2, 4) if tier == "quick" else (1, 2, 3, 4, 8)
+  for b_, i_, kn, sym in itertools.product(bits, (0, 1), (True, False),
+                                           (0, 1)):
+    for alpha in (None, F(2), "auto"):
+      yield dict(bits=b_, integer=i_, keep_negative=kn, symmetric=sym,
+                 alpha=alpha)
 
 
 def run(rep, repo, tier):
@@ -215,6 +313,11 @@ def run(rep, repo, tier):
       ("quantized_linear", dict(bits=4, integer=0, alpha="auto")),
       ("quantized_linear", dict(bits=4, integer=0, alpha="auto_po2"))],
               "R6", tier)
+  n7 = rule_installed(rep, repo, ("quantized_bits", "quantized_linear"),
+                      "R7", tier, installed_configs)
+  if n7 < 40:
+    raise AnalysisError("instance-count only %d installed-quantizer "
+                        "configurations" % n7)
   rep.require_instances("R6", 40)
   rep.require_instances("R1", 100)
   rep.require_instances("R2", 30)
